@@ -1,8 +1,11 @@
 package props
 
 import (
+	"fmt"
+	"go/constant"
 	"go/token"
 	"go/types"
+	"sort"
 	"strings"
 
 	"golang.org/x/tools/go/ssa"
@@ -726,4 +729,199 @@ func rootedAtReceiver(fn *ssa.Function, v ssa.Value) bool {
 		}
 	}
 	return false
+}
+
+// positionBlind (PT3): what these functions promise does not depend on where an element
+// stands or on how many there are, so no decision taken per element (a branch inside a
+// loop, other than the loop's own continuation test) may consult the position, a running
+// count, or a length or capacity. "All but the fifth", "not when three were kept" and the
+// like are invisible to the rules that only ask for the stated test to be present.
+// Accepted: a comparison of the position with 0 (first-element initialisation).
+func positionBlind(c rc, names ...string) {
+	for _, name := range names {
+		fn := c.p.Func(name)
+		if fn == nil || len(fn.Blocks) == 0 {
+			continue
+		}
+		isHead := map[*ssa.BasicBlock]bool{}
+		inLoop := map[*ssa.BasicBlock]bool{}
+		for _, h := range fn.Blocks {
+			if l := path.NaturalLoop(h); len(l) > 0 {
+				isHead[h] = true
+				for b := range l {
+					inLoop[b] = true
+				}
+			}
+		}
+		n := 0
+		var bad ssa.Instruction
+		what := ""
+		for _, b := range fn.Blocks {
+			iff := path.BlockIf(b)
+			if iff == nil || !inLoop[b] || isHead[b] {
+				continue
+			}
+			n++
+			if w := positional(iff.Cond, map[ssa.Value]bool{}, 0); w != "" {
+				if bo, ok := path.Strip(iff.Cond).(*ssa.BinOp); ok && (bo.Op == token.EQL || bo.Op == token.NEQ) {
+					kx, isX := path.IntConst(bo.X)
+					ky, isY := path.IntConst(bo.Y)
+					if (isX && kx == 0 && isCounter(bo.Y)) || (isY && ky == 0 && isCounter(bo.X)) {
+						continue
+					}
+				}
+				bad, what = iff, w
+			}
+		}
+		pos := c.fpos(fn)
+		if bad != nil {
+			pos = c.p.InstrPos(bad)
+		}
+		c.ob("PT3", name, "per-element decisions do not consult position or size", pos, bad == nil, "a branch inside the scan depends on "+what+": which elements count depends on where they stand or on how many there are, which the statement does not allow")
+		_ = n
+	}
+}
+
+// isCounter: a loop-carried integer stepped by a constant (the position of a scan or a
+// running count).
+func isCounter(v ssa.Value) bool {
+	ph, ok := path.Strip(v).(*ssa.Phi)
+	if !ok || !isIntType(ph.Type()) {
+		return false
+	}
+	for _, e := range ph.Edges {
+		if bo, ok := path.Strip(e).(*ssa.BinOp); ok && (bo.Op == token.ADD || bo.Op == token.SUB) {
+			if _, isK := path.IntConst(bo.Y); isK && path.Strip(bo.X) == ssa.Value(ph) {
+				return true
+			}
+			if _, isK := path.IntConst(bo.X); isK && path.Strip(bo.Y) == ssa.Value(ph) && bo.Op == token.ADD {
+				return true
+			}
+		}
+	}
+	return false
+}
+
+func positional(v ssa.Value, seen map[ssa.Value]bool, depth int) string {
+	v = path.Strip(v)
+	if seen[v] || depth > 12 {
+		return ""
+	}
+	seen[v] = true
+	switch x := v.(type) {
+	case *ssa.BinOp:
+		if isCounter(x.X) && !isCounter(x) {
+			// the step of a counter is not a use of it
+		}
+		if w := positional(x.X, seen, depth+1); w != "" {
+			return w
+		}
+		return positional(x.Y, seen, depth+1)
+	case *ssa.UnOp:
+		if x.Op == token.NOT || x.Op == token.SUB {
+			return positional(x.X, seen, depth+1)
+		}
+	case *ssa.Phi:
+		if isCounter(x) {
+			return "the position or a running count"
+		}
+		for _, e := range x.Edges {
+			if w := positional(e, seen, depth+1); w != "" {
+				return w
+			}
+		}
+	case *ssa.Call:
+		if bi, ok := x.Call.Value.(*ssa.Builtin); ok && (bi.Name() == "len" || bi.Name() == "cap") {
+			return "a length or capacity"
+		}
+	case *ssa.Extract:
+		// the index of a range over a string / the key of a map are values, not positions
+	}
+	return ""
+}
+
+// noSingledOutValue (PT3): no branch of these functions compares anything with an integer
+// or duration literal that the statement gives no role to. Accepted without a list: -1, 0
+// and 1 (emptiness, first element, the comparator's three answers, "no expiration"), 2 in
+// an ordering test (fewer than two elements), the byte/rune constants of the text
+// functions, and the named constants passed in accept. "Not when five are held", "except
+// for one hour" single out one state or argument and are invisible to every rule that
+// only asks for the stated tests to be present.
+func noSingledOutValue(c rc, files []string, accept map[int64]string) {
+	fns := c.p.FuncsInFiles(files...)
+	sort.Slice(fns, func(i, j int) bool { return c.p.FuncName(fns[i]) < c.p.FuncName(fns[j]) })
+	for _, fn := range fns {
+		name := c.p.FuncName(fn)
+		var bad ssa.Instruction
+		val := int64(0)
+		nCmp := 0
+		check := func(in ssa.Instruction, op token.Token, k ssa.Value) {
+			cst, ok := path.Strip(k).(*ssa.Const)
+			if !ok || cst.Value == nil {
+				return
+			}
+			b, isB := cst.Type().Underlying().(*types.Basic)
+			if !isB || b.Info()&types.IsInteger == 0 || b.Kind() == types.Int32 || b.Kind() == types.Uint8 {
+				if _, isTP := cst.Type().(*types.TypeParam); !isTP {
+					return
+				}
+			}
+			if nm, isN := cst.Type().(*types.Named); isN && nm.Obj().Pkg() != nil && nm.Obj().Pkg().Path() == "reflect" {
+				return // reflect.Kind values are names, not quantities
+			}
+			v, isK := path.IntConst(cst)
+			if !isK {
+				return
+			}
+			nCmp++
+			if v >= -1 && v <= 1 {
+				return
+			}
+			if v == 2 && op != token.EQL && op != token.NEQ {
+				return
+			}
+			if _, ok := accept[v]; ok {
+				return
+			}
+			bad, val = in, v
+		}
+		for _, in := range path.Instrs(fn) {
+			bo, ok := in.(*ssa.BinOp)
+			if !ok {
+				continue
+			}
+			switch bo.Op {
+			case token.EQL, token.NEQ, token.LSS, token.LEQ, token.GTR, token.GEQ:
+				// only comparisons a branch (or a returned/stored truth value) is made of
+				check(in, bo.Op, bo.X)
+				check(in, bo.Op, bo.Y)
+			}
+		}
+		if nCmp == 0 && bad == nil {
+			continue
+		}
+		pos := c.fpos(fn)
+		if bad != nil {
+			pos = c.p.InstrPos(bad)
+		}
+		c.ob("PT3", name, "no state or argument value singled out", pos, bad == nil, fmt.Sprintf("a comparison with the literal %d: the function treats one particular size, count or argument value differently from all others, which the statement gives no reason for", val))
+	}
+}
+
+// namedIntConsts: the value of a package-level integer constant of the module, and its
+// half (a node holds at most maxChildren entries and is split in two).
+func namedIntConsts(p *core.Program, pkg, name string) map[int64]string {
+	out := map[int64]string{}
+	for _, pk := range p.SSA.AllPackages() {
+		if pk.Pkg.Name() != pkg {
+			continue
+		}
+		if cn, ok := pk.Pkg.Scope().Lookup(name).(*types.Const); ok {
+			if v, exact := constant.Int64Val(constant.ToInt(cn.Val())); exact {
+				out[v] = name
+				out[v/2] = name + "/2"
+			}
+		}
+	}
+	return out
 }
